@@ -152,6 +152,8 @@ def one_trace(rng, case, bname, parameter=True, observed=False, via_copy=False, 
     if fail_first:
         # a first call that raises half-way (misspelt bijector argument); the retry below must find everything as before
         f = {"ev": "transform", "bij": "<unconstructible>"}
+        if mode == "auto":
+            x.auto_transform = True       # requested before the failing manual call: the request must survive it
         try:
             x.transform(tfb.Softplus, hinge_softnes=0.7)
             f.update({"ok": True, "reason": "none"})
@@ -173,7 +175,8 @@ def one_trace(rng, case, bname, parameter=True, observed=False, via_copy=False, 
     try:
         args, kwargs = mk(pv_for_bij)
         if mode == "auto":
-            x.auto_transform = True
+            if not fail_first:
+                x.auto_transform = True
             model = gb.add(x, bvar).build_model()
             tv = model.vars["x_transformed"]
             xx = model.vars["x"]
